@@ -3,7 +3,7 @@
    until they are in, this file carries the full statement as a definition,
    the tie obligations the statement rests on, and the property is decided on
    every run by the correspondence described in DESIGN.md. *)
-From SJ Require Import Model.Base Model.RefTables Spec.Json Spec.EditSpec Model.Driver Model.Tape Model.Iter Model.Walk Model.Edit Model.WF Tie.GoTablesTie.
+From SJ Require Import Model.Base Model.RefTables Spec.Json Spec.EditSpec Model.Driver Model.Tape Model.Iter Model.Walk Model.Edit Model.WF Proofs.TapeWF Proofs.TapeProofs Tie.GoTablesTie.
 Open Scope N_scope.
 
 Definition pj_of (p : parsed) : pjson := {| pj_tape := p_tape p; pj_strings := p_strings p; pj_msg := p_msg p |}.
@@ -12,6 +12,17 @@ Definition pj_of (p : parsed) : pjson := {| pj_tape := p_tape p; pj_strings := p
    the executable well-formedness check (no NOPs) *)
 Definition C17_full : Prop :=
   forall nd copy bs p, parse_message nd copy bs = Ok p -> wf_check false (pj_of p) = true.
+
+(* PROVED: in-place edits keep the tape well-formed (NOP runs included) *)
+Definition C17_set_null_preserves_wf := set_null_preserves_wf.
+Definition C17_set_float_preserves_wf := set_float_preserves_wf.
+Definition C17_set_string_preserves_wf := set_string_preserves_wf.
+Definition C17_array_delete_preserves_wf := arr_delete_preserves_wf.
+Definition C17_object_delete_preserves_wf := obj_delete_preserves_wf.
+Theorem C17_strict_implies_nop_wf : forall pj, wf_check false pj = true -> wf_check true pj = true.
+Proof. exact wf_check_false_true. Qed.
+Print Assumptions C17_strict_implies_nop_wf.
+Print Assumptions C17_set_null_preserves_wf.
 
 Theorem C17_tie_tags_distinct :
   NoDup [gen.Consts.gen_TagString; gen.Consts.gen_TagInteger; gen.Consts.gen_TagUint; gen.Consts.gen_TagFloat; gen.Consts.gen_TagNull;
